@@ -103,3 +103,11 @@ MUTANTS["C09"] = [
     ("groupby-global", "annet/deploy.py", "    for _k, cmd_before_after in itertools.groupby(cmds_with_apply, key=_key):\n        cmd_before_after = list(cmd_before_after)", "    groups = {}\n    for item in cmds_with_apply:\n        groups.setdefault(_key(item), []).append(item)\n    for _k, cmd_before_after in groups.items():\n        cmd_before_after = list(cmd_before_after)"),
     ("dont_commit-ignored-in-job", "annet/api/__init__.py", "            device.hw, cmds,\n            do_commit=not self.args.dont_commit\n        )", "            device.hw, cmds,\n        )"),
 ]
+
+MUTANTS["C16"] = [
+    ("file-path-strips-first", "annet/api/__init__.py", "    patchtree = patch_from_pre(patching.make_pre(diff_obj), hw, rb, add_comments)\n    diff_obj = patching.strip_unchanged(diff_obj)\n    pre = patching.make_pre(diff_obj)",
+     "    diff_obj = patching.strip_unchanged(diff_obj)\n    pre = patching.make_pre(diff_obj)\n    patchtree = patch_from_pre(pre, hw, rb, add_comments)"),
+    ("patch_from_pre-default-no-commit", "annet/api/__init__.py", "def patch_from_pre(pre, hw, rb, add_comments, ref_track=None, do_commit=True):", "def patch_from_pre(pre, hw, rb, add_comments, ref_track=None, do_commit=False):"),
+    ("file-diff-not-stripped", "annet/api/__init__.py", "    diff_obj = patching.strip_unchanged(diff_obj)\n    pre = patching.make_pre(diff_obj)\n    return rb, diff_obj, pre, patchtree", "    pre = patching.make_pre(patching.strip_unchanged(diff_obj))\n    return rb, diff_obj, pre, patchtree"),
+    ("device-path-no-orderer-refs", "annet/api/__init__.py", "    diff_tree = patching.make_diff(old, new, rb, [acl_rules, filter_acl_rules])\n    pre = patching.make_pre(diff_tree)", "    diff_tree = patching.make_diff(old, new, rb, [acl_rules, filter_acl_rules])\n    pre = patching.make_pre(patching.strip_unchanged(diff_tree))"),
+]
